@@ -359,6 +359,21 @@ def P24(m, R):
                 ok = isinstance(c, ast.ListComp) and norm(c.generators[0].iter) == active and norm(c.elt) == norm(c.generators[0].target)
                 if not ok:
                     problems.append('the stop list is extended with %s, expected every continuing setting of the active list' % short(c))
+                else:
+                    # continuing = active, minus what starts at this very point, minus what was removed (both by identity)
+                    tv = norm(c.generators[0].target)
+                    excl = []
+                    for cond in c.generators[0].ifs:
+                        for part in (cond.values if isinstance(cond, ast.BoolOp) and isinstance(cond.op, ast.And) else [cond]):
+                            mm = re.match(r'^__class__\.%s\(%s, (.+)\) < 0$' % (re.escape(ro.IDFIND1), re.escape(tv)), norm(part))
+                            excl.append(mm.group(1) if mm else '?' + norm(part))
+                    acc_names = {norm(x.func.value) for x in ast.walk(f.node) if isinstance(x, ast.Call) and call_name(x) == 'append' and isinstance(x.func.value, ast.Name)}
+                    want_first = '%s.%s' % (point, ro.START)
+                    if want_first not in excl:
+                        problems.append('settings that start at this very point are stopped here as well (exclusions: %s)' % excl)
+                    rest = [e for e in excl if e != want_first]
+                    if len(rest) != 1 or rest[0] not in acc_names:
+                        problems.append('the stop list must leave out exactly the point\'s own starters and the removed settings (exclusions: %s)' % excl)
     R.check(not problems, f, endblk, 'at the end of the range every continuing setting is stopped and the full active list restarted in its original order',
             '; '.join(problems), construct=cons)
 
